@@ -340,6 +340,28 @@ func (fv *FuncVerifier) receiverAndArgs(fn *types.Func, call *ast.CallExpr, st *
 			args = append(args, Term{})
 			continue
 		}
+		// &x for a local variable x: a temporary cell holds x for the duration of the call and
+		// is copied back afterwards (the callee may write through the pointer; it must not keep it)
+		if u, ok := ast.Unparen(a).(*ast.UnaryExpr); ok && u.Op == token.AND && fv.specMode == 0 && !fv.termMode {
+			if id, ok := ast.Unparen(u.X).(*ast.Ident); ok {
+				obj := info.Uses[id]
+				if lv, isVar := obj.(*types.Var); isVar && !lv.IsField() && lv.Parent() != nil && (lv.Pkg() == nil || lv.Parent() != lv.Pkg().Scope()) {
+					if cur, has := st.vars[lv]; has && cur.Sort != nil {
+						tmp := fv.alloc(cur, st)
+						prev := writeBack
+						writeBack = func(st *State) {
+							if prev != nil {
+								prev(st)
+							}
+							st.vars[lv] = fv.def(lv.Name(), sel2(fv.heap(st, tmp.Sort), tmp))
+						}
+						fv.u.note("address of a local passed to a call: modelled as a temporary cell copied back after the call (the callee is assumed not to retain the pointer)")
+						args = append(args, tmp)
+						continue
+					}
+				}
+			}
+		}
 		if pt != nil && fv.sortOf(pt) == nil {
 			// unmodelled parameter (context, logger fields...): evaluate for effects only if needed
 			if fv.hasEffects(a) {
